@@ -88,7 +88,7 @@ func (t *Trie[K, V]) Put(key K, val V) {
 	t.mu.Lock()
 	defer t.mu.Unlock()
 
-	if x, err := t.root.get(key, 0); err != nil || x == nil {
+	if x, err := t.root.get(key, 0); err != nil || x == nil || !x.isValid {
 		t.n++
 	}
 	t.root = t.root.put(t, key, val, 0, true)
@@ -124,7 +124,7 @@ func (t *Trie[K, V]) Get(key K) (v V, ok bool) {
 		return v, false
 	}
 	x, err := t.root.get(key, 0)
-	if x == nil || err != nil {
+	if x == nil || err != nil || !x.isValid {
 		return v, false
 	}
 
